@@ -3,6 +3,7 @@ package codecbasic
 
 import (
 	"errors"
+	"fmt"
 	"math/rand/v2"
 
 	"github.com/pion/rtp"
@@ -108,5 +109,22 @@ func Run(c *corr.Ctx) {
 	}
 	for _, s := range specs {
 		cu.RunAll(c, s)
+	}
+	// long runs: one Encode call that yields more than 256 (and, in the thorough tier, more than
+	// 65536) packets, followed by further calls: counters narrower than the sequence number must not
+	// leak into the numbering (found necessary by a seeded change in another encoder)
+	if c.Want("C06") || c.Want("C03") {
+		for i := 0; i < c.N(6, 40); i++ {
+			max := 1 + c.Rng.IntN(3)
+			n := 257 + c.Rng.IntN(600)
+			if !c.Quick() && i%10 == 0 {
+				n = 65537 + c.Rng.IntN(300)
+				max = 1
+			}
+			p := cu.EncParams{PT: 96, SSRC: c.Rng.Uint32(), Seq0: uint16(c.Rng.IntN(65536)), Max: max}
+			cu.RoundTrip(c, Fragmented, p, func(*cu.Instance) []cu.Frame {
+				return []cu.Frame{{RandBytes(c.Rng, n*max-c.Rng.IntN(max))}, {RandBytes(c.Rng, 1+c.Rng.IntN(3*max))}, {RandBytes(c.Rng, 300*max)}}
+			}, fmt.Sprintf("fragmented-longrun-%d", i))
+		}
 	}
 }
